@@ -22,6 +22,7 @@ CONC = {
     "o": [";", ",", "\t", "\x00", "\r", "\n", "\x7f", "\xe9", "\xff", "\x80"],
     "q": ['"'],
     "b": ["\\"],
+    "d3": ["101", "073", "054", "000", "377", "012"],
 }
 ZONES = {0: "UTC0", 28800: "CST-8", -18000: "EST5", 37800: "LHST-10:30", -12600: "NST3:30"}
 DST_ZONE = "EST5EDT,M3.2.0,M11.1.0"
